@@ -69,8 +69,8 @@ def discharge(obligations, tier="quick", workers=None, progress=None):
     """Fill in .result/.backend/.time for obligations that have no result yet."""
     todo = [(i, ob) for i, ob in enumerate(obligations) if ob.result is None]
     rlimit = 40_000_000 if tier == "quick" else 200_000_000
-    timeout_ms = 60_000 if tier == "quick" else 300_000
-    cvc5_timeout = 30 if tier == "quick" else 120
+    timeout_ms = 20_000 if tier == "quick" else 180_000
+    cvc5_timeout = 10 if tier == "quick" else 90
     both = tier == "thorough"
     jobs = []
     for i, ob in todo:
